@@ -247,6 +247,176 @@ Proof.
   - eapply is_stuck_b_sound; eauto.
 Qed.
 
+
+(** ** A relational reading of [step], one case per behaviour *)
+
+Inductive recv_spec (s : state) (i : nat) (c : chan) (k : option val -> L) : state -> Prop :=
+| rs_val v r :
+    c_buf (chans s c) = v :: r ->
+    recv_spec s i c k
+      (set_proc (set_chan chan_eqb s c (mkCst (c_cap (chans s c)) r (c_closed (chans s c)))) i (k (Some v)))
+| rs_closed :
+    c_buf (chans s c) = [] -> c_closed (chans s c) = true ->
+    recv_spec s i c k (set_proc s i (k None)).
+
+Inductive send_spec (s : state) (i : nat) (c : chan) (v : val) (k : L) : state -> Prop :=
+| ss_panic : c_closed (chans s c) = true -> send_spec s i c v k (set_panic s PanicSendClosed)
+| ss_ok :
+    c_closed (chans s c) = false -> has_room (chans s c) = true ->
+    send_spec s i c v k (set_proc (push chan_eqb s c v) i k).
+
+Lemma recv_step_spec s i c k s' :
+  recv_step chan_eqb s i c k = Some s' -> recv_spec s i c k s'.
+Proof.
+  unfold recv_step. destruct (c_buf (chans s c)) eqn:Eb.
+  - destruct (c_closed (chans s c)) eqn:Ec; try discriminate.
+    intro H; inversion H; subst. apply rs_closed; auto.
+  - intro H; inversion H; subst. eapply rs_val; eauto.
+Qed.
+
+Lemma send_step_spec s i c v k s' :
+  send_step chan_eqb s i c v k = Some s' -> send_spec s i c v k s'.
+Proof.
+  unfold send_step. destruct (c_closed (chans s c)) eqn:Ec.
+  - intro H; inversion H; subst. apply ss_panic; auto.
+  - destruct (has_room (chans s c)) eqn:Er; try discriminate.
+    intro H; inversion H; subst. apply ss_ok; auto.
+Qed.
+
+Inductive int_spec (s : state) (i n : nat) (l : L) : state -> Prop :=
+| is_send c v k s' : code l = ASend c v k -> send_spec s i c v k s' -> int_spec s i n l s'
+| is_recv c k s' : code l = ARecv c k -> recv_spec s i c k s' -> int_spec s i n l s'
+| is_try_panic c v k1 k2 :
+    code l = ATrySend c v k1 k2 -> c_closed (chans s c) = true ->
+    int_spec s i n l (set_panic s PanicSendClosed)
+| is_try_ok c v k1 k2 :
+    code l = ATrySend c v k1 k2 -> c_closed (chans s c) = false -> has_room (chans s c) = true ->
+    int_spec s i n l (set_proc (push chan_eqb s c v) i k1)
+| is_try_full c v k1 k2 :
+    code l = ATrySend c v k1 k2 -> c_closed (chans s c) = false -> has_room (chans s c) = false ->
+    int_spec s i n l (set_proc s i k2)
+| is_tryall_panic cs v k :
+    code l = ATrySendAll cs v k -> try_all chan_eqb s cs v = None ->
+    int_spec s i n l (set_panic s PanicSendClosed)
+| is_tryall_ok cs v k s0 :
+    code l = ATrySendAll cs v k -> try_all chan_eqb s cs v = Some s0 ->
+    int_spec s i n l (set_proc s0 i k)
+| is_close_panic c k :
+    code l = AClose c k -> c_closed (chans s c) = true ->
+    int_spec s i n l (set_panic s PanicCloseClosed)
+| is_close c k :
+    code l = AClose c k -> c_closed (chans s c) = false ->
+    int_spec s i n l
+      (set_proc (set_chan chan_eqb s c (mkCst (c_cap (chans s c)) (c_buf (chans s c)) true)) i k)
+| is_closeonce cs k :
+    code l = ACloseOnce cs k -> int_spec s i n l (set_proc (close_all chan_eqb s cs) i k)
+| is_sel_recv rs d c k s' :
+    code l = ASelect rs d -> nth_error rs n = Some (SRecv c k) -> recv_spec s i c k s' ->
+    int_spec s i n l s'
+| is_sel_send rs d c v k s' :
+    code l = ASelect rs d -> nth_error rs n = Some (SSend c v k) -> send_spec s i c v k s' ->
+    int_spec s i n l s'
+| is_sel_default rs k :
+    code l = ASelect rs (Some k) -> nth_error rs n = None -> int_spec s i n l (set_proc s i k)
+| is_lock m k :
+    code l = ALock m k -> locks s m = false ->
+    int_spec s i n l (set_proc (set_lock lock_eqb s m true) i k)
+| is_unlock m k :
+    code l = AUnlock m k -> int_spec s i n l (set_proc (set_lock lock_eqb s m false) i k)
+| is_wgadd w k :
+    code l = AWgAdd w k -> int_spec s i n l (set_proc (set_wg wg_eqb s w (S (wgs s w))) i k)
+| is_wgdone_panic w k :
+    code l = AWgDone w k -> wgs s w = 0 -> int_spec s i n l (set_panic s PanicWgNegative)
+| is_wgdone w k m :
+    code l = AWgDone w k -> wgs s w = S m -> int_spec s i n l (set_proc (set_wg wg_eqb s w m) i k)
+| is_wgwait w k :
+    code l = AWgWait w k -> wgs s w = 0 -> int_spec s i n l (set_proc s i k)
+| is_spawn child k :
+    code l = ASpawn child k -> int_spec s i n l (add_proc (set_proc s i k) child)
+| is_read x k :
+    code l = ARead x k -> int_spec s i n l (set_proc s i (k (vars s x)))
+| is_write x v k :
+    code l = AWrite x v k -> int_spec s i n l (set_proc (set_var var_eqb s x v) i k)
+| is_tau k :
+    code l = ATau k -> int_spec s i n l (set_proc s i k).
+
+Lemma step_int_spec s i n l s' :
+  step_int chan_eqb var_eqb lock_eqb wg_eqb code s i n l = Some s' -> int_spec s i n l s'.
+Proof.
+  unfold step_int. destruct (code l) eqn:Ec; intro H.
+  - eapply is_send; eauto. apply send_step_spec; auto.
+  - eapply is_recv; eauto. apply recv_step_spec; auto.
+  - destruct (c_closed (chans s c)) eqn:E1.
+    + inversion H; subst. eapply is_try_panic; eauto.
+    + destruct (has_room (chans s c)) eqn:E2; inversion H; subst.
+      * eapply is_try_ok; eauto.
+      * eapply is_try_full; eauto.
+  - destruct (try_all chan_eqb s cs v) eqn:E; inversion H; subst.
+    + eapply is_tryall_ok; eauto.
+    + eapply is_tryall_panic; eauto.
+  - destruct (c_closed (chans s c)) eqn:E1; inversion H; subst.
+    + eapply is_close_panic; eauto.
+    + eapply is_close; eauto.
+  - inversion H; subst. eapply is_closeonce; eauto.
+  - destruct (nth_error rs n) as [[c k|c v k]|] eqn:En.
+    + eapply is_sel_recv; eauto. apply recv_step_spec; auto.
+    + eapply is_sel_send; eauto. apply send_step_spec; auto.
+    + destruct dflt; inversion H; subst. eapply is_sel_default; eauto.
+  - destruct (locks s m) eqn:E; inversion H; subst. eapply is_lock; eauto.
+  - inversion H; subst. eapply is_unlock; eauto.
+  - inversion H; subst. eapply is_wgadd; eauto.
+  - destruct (wgs s w) eqn:E; inversion H; subst.
+    + eapply is_wgdone_panic; eauto.
+    + eapply is_wgdone; eauto.
+  - destruct (wgs s w) eqn:E; inversion H; subst. eapply is_wgwait; eauto.
+  - inversion H; subst. eapply is_spawn; eauto.
+  - inversion H; subst. eapply is_read; eauto.
+  - inversion H; subst. eapply is_write; eauto.
+  - inversion H; subst. eapply is_tau; eauto.
+  - discriminate.
+Qed.
+
+(** A rendezvous: sender [i] (case [ni]) and receiver [j] (case [nj]) meet on
+    the unbuffered, open, empty channel [c]. *)
+Inductive sync_spec (s : state) (i ni j nj : nat) (li lj : L) : state -> Prop :=
+| sy c v k kr :
+    i <> j ->
+    send_offer code li ni = Some (c, v, k) ->
+    recv_offer chan_eqb code lj c nj = Some kr ->
+    c_closed (chans s c) = false -> c_cap (chans s c) = 0 -> c_buf (chans s c) = [] ->
+    sync_spec s i ni j nj li lj (set_proc (set_proc s i k) j (kr (Some v))).
+
+Lemma step_sync_spec s i ni j nj li lj s' :
+  step_sync chan_eqb code s i ni j nj li lj = Some s' -> sync_spec s i ni j nj li lj s'.
+Proof.
+  unfold step_sync. destruct (Nat.eqb i j) eqn:Eij; try discriminate.
+  destruct (send_offer code li ni) as [[[c v] k]|] eqn:Es; try discriminate.
+  destruct (c_closed (chans s c)) eqn:Ec; try discriminate.
+  destruct (c_cap (chans s c)) eqn:Ecap; try discriminate.
+  destruct (c_buf (chans s c)) eqn:Eb; try discriminate.
+  destruct (recv_offer chan_eqb code lj c nj) eqn:Er; try discriminate.
+  intro H; inversion H; subst. eapply sy; eauto. apply Nat.eqb_neq; auto.
+Qed.
+
+Inductive step_spec (s : state) : ev -> state -> Prop :=
+| sp_int i n l s' :
+    outcome s = None -> nth_error (procs s) i = Some l -> int_spec s i n l s' ->
+    step_spec s (EInt i n) s'
+| sp_sync i ni j nj li lj s' :
+    outcome s = None -> nth_error (procs s) i = Some li -> nth_error (procs s) j = Some lj ->
+    sync_spec s i ni j nj li lj s' -> step_spec s (ESync i ni j nj) s'.
+
+Theorem step_to_spec s e s' : step s e = Some s' -> step_spec s e s'.
+Proof.
+  unfold Machine.step. destruct (outcome s) eqn:Eo; try discriminate.
+  destruct e as [i n|i ni j nj].
+  - destruct (nth_error (procs s) i) eqn:En; try discriminate.
+    intro H. eapply sp_int; eauto. apply step_int_spec; auto.
+  - destruct (nth_error (procs s) i) eqn:Ei; try discriminate.
+    destruct (nth_error (procs s) j) eqn:Ej; try discriminate.
+    intro H. eapply sp_sync; eauto. apply step_sync_spec; auto.
+Qed.
+
 (** ** The first message always fits
 
     A blocking send on a channel that is open, empty and has capacity at least
